@@ -137,7 +137,7 @@ def main(argv=None):
     groups = {}
     for c in cases:
         groups.setdefault(bool(c.get("x64", True)), []).append(c)
-    timeout = getattr(mod, "TIMEOUT", {}).get(tier, 900 if tier == "quick" else 3600)
+    timeout = getattr(mod, "TIMEOUT", {}).get(tier, 2400 if tier == "quick" else 7200)
     os.makedirs(os.path.join(VERIF, ".cache"), exist_ok=True)
     workdir = tempfile.mkdtemp(prefix=f"run-{prop}-", dir=os.path.join(VERIF, ".cache"))
     try:
